@@ -57,6 +57,15 @@ func (lb *loadBalancer) Remove(u Upstream) bool {
 	return len(lb.upstreams) == 0
 }
 
+func (lb *loadBalancer) Contains(u Upstream) bool {
+	for _, upstream := range lb.upstreams {
+		if upstream == u {
+			return true
+		}
+	}
+	return false
+}
+
 func (lb *loadBalancer) Next() Upstream {
 	if len(lb.upstreams) == 0 {
 		return nil
@@ -137,6 +146,12 @@ func (m *LoadBalancedManager) RemoveConn(u Upstream) {
 
 	lb, ok := m.localUpstreams[u.EndpointID()]
 	if !ok {
+		return
+	}
+	if !lb.Contains(u) {
+		// The upstream has already been removed (such as when the proxy
+		// dropped it after a go-away and the connection later closes), so
+		// the endpoint count must not be decremented again.
 		return
 	}
 	if lb.Remove(u) {
